@@ -22,6 +22,67 @@ type c19Op struct {
 	Kind int    `json:"kind"`
 	TS   uint32 `json:"timescale"`
 	Lang string `json:"lang"`
+	Par  int    `json:"par,omitempty"` // kinds 20..23: index into the parameter product of that descriptor (c19Params)
+}
+
+// parameter products of the audio / subtitle descriptors (kinds 20 AAC, 21 AC-3, 22 EC-3, 23 stpp)
+var c19AACFreqs = []int{96000, 88200, 64000, 48000, 44100, 32000, 24000, 22050, 16000, 12000, 11025, 8000, 7350}
+var c19AACObjs = []byte{aac.AAClc, aac.HEAACv1, aac.HEAACv2}
+var c19Chan = []int{2, 1, 2, 3, 3, 4, 4, 5} // channels per acmod (ETSI TS 102 366 table 4.3)
+
+func c19NrParams(kind int) int {
+	switch kind {
+	case 20:
+		return len(c19AACFreqs) * len(c19AACObjs)
+	case 21:
+		return 3 * 8 * 2 * 3 * 2
+	case 22:
+		return 3 * 3 * 8 * 2 * 2
+	case 23:
+		return 3 * 2 * 3
+	}
+	return 0
+}
+
+func c19Dac3(par int) *mp4.Dac3Box {
+	d := &mp4.Dac3Box{BSID: 8}
+	d.FSCod = byte(par % 3)
+	par /= 3
+	d.ACMod = byte(par % 8)
+	par /= 8
+	d.LFEOn = byte(par % 2)
+	par /= 2
+	d.BitRateCode = []byte{0, 10, 18}[par%3]
+	par /= 3
+	d.BSMod = []byte{0, 5}[par%2]
+	return d
+}
+
+func c19Dec3(par int) *mp4.Dec3Box {
+	d := &mp4.Dec3Box{}
+	d.DataRate = []uint16{0, 192, 8191}[par%3]
+	par /= 3
+	sub := mp4.EC3Sub{BSID: 16}
+	sub.FSCod = byte(par % 3)
+	par /= 3
+	sub.ACMod = byte(par % 8)
+	par /= 8
+	sub.LFEOn = byte(par % 2)
+	par /= 2
+	if par%2 == 1 {
+		sub.NumDepSub, sub.ChanLoc = 1, 0x1a5
+	}
+	d.EC3Subs = []mp4.EC3Sub{sub}
+	return d
+}
+
+func c19Stpp(par int) (ns, loc, aux string) {
+	ns = []string{"", "ns1", "http://www.w3.org/ns/ttml ns2"}[par%3]
+	par /= 3
+	loc = []string{"", "loc.xsd"}[par%2]
+	par /= 2
+	aux = []string{"", "image/png", "image/png image/jpeg"}[par%3]
+	return
 }
 
 var c19KindNames = []string{"avc1+ps", "avc3-nops", "avc3+ps", "hvc1+ps", "hev1-nops", "hev1+ps", "aac-lc", "he-aac", "ac-3", "ec-3", "stpp", "wvtt(text)", "wvtt(wvtt)", "meta-none", "video-none", "avc1+ps(2nd sps)", "stpp(media type stpp)"}
@@ -42,9 +103,9 @@ func c19Media(kind int) string {
 	switch kind {
 	case 0, 1, 2, 3, 4, 5, 14, 15:
 		return "video"
-	case 6, 7, 8, 9:
+	case 6, 7, 8, 9, 20, 21, 22:
 		return "audio"
-	case 10:
+	case 10, 23:
 		return "subtitle"
 	case 16:
 		return "stpp" // the media type name examples/initcreator uses for TTML tracks
@@ -87,6 +148,15 @@ func c19Apply(init *mp4.InitSegment, op c19Op) error {
 		return trak.SetStppDescriptor("http://www.w3.org/ns/ttml", "", "image/png")
 	case 11:
 		return trak.SetWvttDescriptor("")
+	case 20:
+		return trak.SetAACDescriptor(c19AACObjs[op.Par%3], c19AACFreqs[op.Par/3])
+	case 21:
+		return trak.SetAC3Descriptor(c19Dac3(op.Par))
+	case 22:
+		return trak.SetEC3Descriptor(c19Dec3(op.Par))
+	case 23:
+		ns, loc, aux := c19Stpp(op.Par)
+		return trak.SetStppDescriptor(ns, loc, aux)
 	case 12:
 		return trak.SetWvttDescriptor("WEBVTT\nX-TIMESTAMP-MAP=LOCAL:00:00:00.000,MPEGTS:0")
 	}
@@ -258,6 +328,46 @@ func c19Run(c *vf.Ctx, h *c19History) string {
 				if stsd.Stpp == nil || stsd.Stpp.Namespace != "http://www.w3.org/ns/ttml" || stsd.Stpp.AuxiliaryMimeTypes != "image/png" {
 					return fail("stpp config "+where, "stpp entry carries the supplied strings", fmt.Sprintf("track %d", i))
 				}
+			case 20:
+				obj, f := c19AACObjs[op.Par%3], c19AACFreqs[op.Par/3]
+				if stsd.Mp4a == nil || stsd.Mp4a.Esds == nil {
+					return fail("aac sample entry "+where, "mp4a with esds", fmt.Sprintf("track %d", i))
+				}
+				asc, err := aac.DecodeAudioSpecificConfig(bytes.NewReader(stsd.Mp4a.Esds.DecConfigDescriptor.DecSpecificInfo.DecConfig))
+				wantCh, wantExt := byte(2), 0
+				if obj != aac.AAClc {
+					wantExt = 2 * f
+				}
+				if obj == aac.HEAACv2 {
+					wantCh = 1
+				}
+				if err != nil || asc.ObjectType != obj || asc.SamplingFrequency != f || asc.ChannelConfiguration != wantCh || asc.ExtensionFrequency != wantExt || asc.SBRPresentFlag != (obj != aac.AAClc) || asc.PSPresentFlag != (obj == aac.HEAACv2) {
+					return fail("aac config "+where, "esds carries the supplied AAC configuration", fmt.Sprintf("track %d: obj %d f %d: %+v %v", i, obj, f, asc, err))
+				}
+			case 21:
+				w := c19Dac3(op.Par)
+				if stsd.AC3 == nil || stsd.AC3.Dac3 == nil || *stsd.AC3.Dac3 != *w {
+					return fail("ac-3 config "+where, "ac-3 entry carries the supplied dac3", fmt.Sprintf("track %d: %+v want %+v", i, stsd.AC3, w))
+				}
+				if int(stsd.AC3.SampleRate) != mp4.AC3SampleRates[w.FSCod] || int(stsd.AC3.ChannelCount) != c19Chan[w.ACMod]+int(w.LFEOn) {
+					return fail("ac-3 sample entry "+where, "sample rate and channel count follow fscod and acmod/lfeon", fmt.Sprintf("track %d: rate %d channels %d for %+v", i, stsd.AC3.SampleRate, stsd.AC3.ChannelCount, w))
+				}
+			case 22:
+				w := c19Dec3(op.Par)
+				if stsd.EC3 == nil || stsd.EC3.Dec3 == nil || stsd.EC3.Dec3.DataRate != w.DataRate || len(stsd.EC3.Dec3.EC3Subs) != 1 || stsd.EC3.Dec3.EC3Subs[0] != w.EC3Subs[0] {
+					return fail("ec-3 config "+where, "ec-3 entry carries the supplied dec3", fmt.Sprintf("track %d: %+v want %+v", i, stsd.EC3, w))
+				}
+				if int(stsd.EC3.SampleRate) != mp4.AC3SampleRates[w.EC3Subs[0].FSCod] {
+					return fail("ec-3 sample entry "+where, "sample rate follows fscod", fmt.Sprintf("track %d: rate %d for %+v", i, stsd.EC3.SampleRate, w))
+				}
+			case 23:
+				ns, loc, aux := c19Stpp(op.Par)
+				if ns == "" {
+					ns = "http://www.w3.org/ns/ttml"
+				}
+				if stsd.Stpp == nil || stsd.Stpp.Namespace != ns || stsd.Stpp.SchemaLocation != loc || stsd.Stpp.AuxiliaryMimeTypes != aux {
+					return fail("stpp config "+where, "stpp entry carries the supplied strings", fmt.Sprintf("track %d: %+v", i, stsd.Stpp))
+				}
 			case 11, 12:
 				want := "WEBVTT"
 				if op.Kind == 12 {
@@ -381,7 +491,7 @@ func c19Enumerate(depth int, full bool, fn func(h *c19History)) {
 			if full {
 				for _, ts := range tss {
 					for _, l := range langs {
-						ops = append(ops, c19Op{k, ts, l})
+						ops = append(ops, c19Op{Kind: k, TS: ts, Lang: l})
 						rec()
 						ops = ops[:len(ops)-1]
 					}
@@ -389,7 +499,7 @@ func c19Enumerate(depth int, full bool, fn func(h *c19History)) {
 			} else {
 				// diagonal over (timescale, language) driven by position and kind
 				for d := 0; d < 2; d++ {
-					ops = append(ops, c19Op{k, tss[(k+len(ops)+d)%3], langs[(k*2+len(ops)+3*d)%6]})
+					ops = append(ops, c19Op{Kind: k, TS: tss[(k+len(ops)+d)%3], Lang: langs[(k*2+len(ops)+3*d)%6]})
 					rec()
 					ops = ops[:len(ops)-1]
 				}
@@ -401,7 +511,7 @@ func c19Enumerate(depth int, full bool, fn func(h *c19History)) {
 
 func runC19(c *vf.Ctx) {
 	thorough := c.Tier == "thorough"
-	c.Rule = "explicit enumeration of all histories of AddEmptyTrack(timescale in {1,90000,2^32-1}, media in {video,audio,subtitle,stpp,text,wvtt,meta}, language in {en,sv,und,eng,en-US,zh-Hant-TW}) each followed by the matching Set{AVC,HEVC,AAC,AC3,EC3,Wvtt,Stpp}Descriptor call (17 track kinds incl. avc1/avc3 with and without parameter sets, two SPS/PPS sets, hvc1/hev1 with SEI, AAC-LC/HE-AAC, no descriptor); every prefix is a checked state: ids/trex/next-track-id, handler and media header, timescale and language carriage, sample entry contents, Encode==EncodeSW, Size, decode by both decoders, re-encode, deep equality with the built tree, and a fragment round trip for every track id. Distinct = distinct encoded inits."
+	c.Rule = "explicit enumeration of all histories of AddEmptyTrack(timescale in {1,90000,2^32-1}, media in {video,audio,subtitle,stpp,text,wvtt,meta}, language in {en,sv,und,eng,en-US,zh-Hant-TW}) each followed by the matching Set{AVC,HEVC,AAC,AC3,EC3,Wvtt,Stpp}Descriptor call (17 track kinds incl. avc1/avc3 with and without parameter sets, two SPS/PPS sets, hvc1/hev1 with SEI, AAC-LC/HE-AAC, no descriptor); every prefix is a checked state: ids/trex/next-track-id, handler and media header, timescale and language carriage, sample entry contents, Encode==EncodeSW, Size, decode by both decoders, re-encode, deep equality with the built tree, and a fragment round trip for every track id; plus the full parameter products of SetAACDescriptor (13 frequencies x LC/HE/HEv2), SetAC3Descriptor (fscod x acmod x lfeon x bit rate code x bsmod), SetEC3Descriptor (data rate x fscod x acmod x lfeon x dependent substream) and SetStppDescriptor (namespace x schema location x auxiliary mime types) as the only track and as second track. Distinct = distinct encoded inits."
 	var n int64
 	run := func(depth int, full bool) {
 		var hs []*c19History
@@ -419,6 +529,25 @@ func runC19(c *vf.Ctx) {
 			}
 		}
 		n += int64(len(hs))
+	}
+	// descriptor parameter products: every parameter combination of the AAC / AC-3 / EC-3 / stpp setters as the only
+	// track and as the second track after a video track
+	{
+		var hs []*c19History
+		for kind := 20; kind <= 23; kind++ {
+			for par := 0; par < c19NrParams(kind); par++ {
+				op := c19Op{Kind: kind, TS: 48000, Lang: "und", Par: par}
+				hs = append(hs, &c19History{Ops: []c19Op{op}}, &c19History{Ops: []c19Op{{Kind: 0, TS: 90000, Lang: "en-US"}, op}})
+			}
+		}
+		local := make([]string, len(hs))
+		c.Parallel(len(hs), func(i int) { local[i] = c19Run(c, hs[i]) })
+		for _, k := range local {
+			c.OutcomeN("parameter sweep: "+k, 1)
+		}
+		c.Sample(hs[len(hs)/3])
+		n += int64(len(hs))
+		c.Set("descriptor_parameter_histories", len(hs))
 	}
 	if thorough {
 		c.SetBudget(10 * 60 * 1e9)
